@@ -175,6 +175,9 @@ class ModbusUdpProtocol(protocol.DatagramProtocol):
             _logger.debug("Datagram Received: "+ hexlify_packets(data))
         if not self.control.ListenOnly:
             continuation = lambda request: self._execute(request, addr)
+            # a datagram is a whole message: nothing left over from an
+            # earlier datagram (of any peer) may be prepended to it
+            self.framer.resetFrame()
             self.framer.processIncomingPacket(data, continuation,
                                               single=self.store.single,
                                               unit=self.store.slaves())
